@@ -165,7 +165,22 @@ func immediateAbort(p *core.Prog, r *core.Run, rule, key string, fn *ssa.Functio
 	r.Check(rule, key, n >= 1, p.Pos(fn.Pos()), "%d branch(es) of %s test %q and each leads only to returns carrying %s", n, p.FuncName(fn), a.name, sentinel)
 }
 
-func lastResultNil(ret *ssa.Return) bool { return isNilConst(retErr(ret)) }
+// lastResultNil: the error result is the nil constant, also when the function
+// spills its results into cells (functions with defer).
+func lastResultNil(ret *ssa.Return) bool {
+	e := retErr(ret)
+	if isNilConst(e) {
+		return true
+	}
+	if curProg != nil {
+		x := curProg.X(e)
+		return x.Op == "const" && x.Name == "nil"
+	}
+	return false
+}
+
+// curProg is the program under analysis (set by RunOn).
+var curProg *core.Prog
 
 // cmpAssume builds an assumption "L op R" where l and r are predicates on
 // expressions; op is one of == != < <= > >=. Both operand orders and the
